@@ -32,9 +32,10 @@ pub fn dispatch(id: &str, tier: Tier, replay: Option<&str>) -> i32 {
         let txt = std::fs::read_to_string(path).unwrap_or_else(|e| machinery_error(&format!("cannot read replay file {path}: {e}")));
         let v: serde_json::Value = serde_json::from_str(&txt).unwrap_or_else(|e| machinery_error(&format!("replay file {path} does not parse: {e}")));
         println!("replaying {path}: key={} what={}", v["key"], v["what"]);
-        if v["replay"]["scenario"]["batches_variant"].is_u64() && matches!(id, "C01" | "C03" | "C04") {
+        if v["replay"]["scenario"]["batches_variant"].is_u64() && matches!(id, "C01" | "C02" | "C03" | "C04") {
             return match id {
                 "C01" => c06::replay_batch(&v, "C01", &|o, _c, variant| c01::batch_contract(o, &c06::batches(variant))),
+                "C02" => c06::replay_batch(&v, "C02", &|o, c, variant| c06::judge(o, &c06::batches(variant), &c06::simple_reference(c, &c06::batches(variant)))),
                 "C03" => c06::replay_batch(&v, "C03", &|o, c, variant| c03::batch_lifecycle(o, &c06::batches(variant), c)),
                 _ => c06::replay_batch(&v, "C04", &|o, c, variant| c04::batch_isolation(o, c, variant)),
             };
@@ -90,9 +91,10 @@ pub fn dispatch(id: &str, tier: Tier, replay: Option<&str>) -> i32 {
         "C01" => c01::run(tier),
         "C02" => {
             let rep = Report::new("C02", tier);
-            rep.set_rule("(a) every weight matrix for <= 3 candidates x <= 3 tracks over a grid straddling the threshold (quick: 4 values for 3x3, 7 below; thorough: 7 values), thresholds 0.3 and 1.0, declared sizes exact and larger, every arrival order for <= 2x2 (three orders above), plus permutation-matrix and greedy-trap families up to 8x8: SortVoting::winners judged against an exact bitmask-DP optimum in the implementation's micro-units. (b) every relative-motion word of length 5 (6 thorough) over {approach, stay, separate} for two objects that approach, cross and separate (+ a small static object / a rotated third one), on Sort / VisualSort / BatchSort x IoU / Mahalanobis (default, wide (1/2, 1/10) and small (1/80, 1/640) Kalman weights; a small-hop family decided by the narrow gate of the small weights) x shards: before every call the live tracks (last estimate, Kalman state) are read from the store, gate and weight of every pair re-derived in f64 (own clipper, own Mahalanobis), the optimum found by brute force, and the tracker's association must attain it and never use an ungated / expired pair; asserted outside a 1e-3 margin.");
+            rep.set_rule("(a) every weight matrix for <= 3 candidates x <= 3 tracks over a grid straddling the threshold (quick: 4 values for 3x3, 7 below; thorough: 7 values), thresholds 0.3 and 1.0, declared sizes exact and larger, every arrival order for <= 2x2 (three orders above), plus permutation-matrix and greedy-trap families up to 8x8: SortVoting::winners judged against an exact bitmask-DP optimum in the implementation's micro-units. (b) every relative-motion word of length 5 (6 thorough) over {approach, stay, separate} for two objects that approach, cross and separate (+ a small static object / a rotated third one), on Sort / VisualSort / BatchSort x IoU / Mahalanobis (default, wide (1/2, 1/10) and small (1/80, 1/640) Kalman weights; a small-hop family decided by the narrow gate of the small weights) x shards: before every call the live tracks (last estimate, Kalman state) are read from the store, gate and weight of every pair re-derived in f64 (own clipper, own Mahalanobis), the optimum found by brute force, and the tracker's association must attain it and never use an ungated / expired pair; asserted outside a 1e-3 margin. (c) BatchSort under pipelined use (consumer threads, 1-2 voting threads): every interleaving within a deviation bound; every scene's records must be those of the simple tracker.");
             c02::run_a(&rep, tier);
             c02::run_b(&rep, tier);
+            c02::run_schedules(&rep, tier);
             rep
         }
         "C03" => c03::run(tier),
